@@ -62,7 +62,11 @@ def main():
         demo_rel = meta.get("demo_path_in_repo")
         demo_cmd = meta.get("demo_cmd", "")
         demo_cmd = demo_cmd.replace("/tmp/seed2-%s" % pid, wt).replace("/tmp/seed-%s" % pid, wt)
-        demo_cmd = re.sub(r"\bgo test\b", GO + " test", demo_cmd) if GO not in demo_cmd and "$GO" not in demo_cmd else demo_cmd.replace("$GO", GO)
+        mm = re.search(r"\btest\s+-", demo_cmd)
+        if mm:  # keep only `test <flags> <pkgs>`; environment and `cd` come from us
+            demo_cmd = GO + " " + demo_cmd[mm.start():]
+        else:
+            demo_cmd = re.sub(r"\bgo test\b", GO + " test", demo_cmd) if GO not in demo_cmd and "$GO" not in demo_cmd else demo_cmd.replace("$GO", GO)
         demo_files = [f for f in os.listdir(src) if f.endswith(".go")]
         if demo_rel and demo_files:
             # single demo file -> demo_path_in_repo; several -> same directory
